@@ -145,7 +145,14 @@ def run(ctx):
                     queued += 1
                 if r["retry"] != 0:
                     out.append("first execution of event %s has retry_number %s" % (r["i"], r["retry"]))
+                if r["last_exc"] is not None:
+                    out.append("first execution of event %s sees last_exception %s" % (r["i"], r["last_exc"]))
             else:
+                want = "ValueError('fail%d')" % (r["retry"] - 1)
+                if r["last_exc"] != want:
+                    out.append("event %s, retry %d: retry_info().last_exception is %s, the previous attempt raised %s "
+                               "(the retry may have waited in the step's queue for a free worker)"
+                               % (r["i"], r["retry"], r["last_exc"], want))
                 real = Fraction(r["t"]) - Fraction(first[r["i"]])
                 if Fraction(r["elapsed"]) != real:
                     out.append("event %s, retry %d: retry_info().elapsed_seconds=%s but %s s elapsed since its first attempt began "
